@@ -184,6 +184,9 @@ func c18Run(c *RunCtx, script c18script, err500, jsonMode bool, unit, k int, fau
 	if fault == nil {
 		return target, s, nil, ""
 	}
+	// a failed request must not leave secrets behind in recoverable form either (C17's scan)
+	c17 := &c17mon{stats: c.Stats, typed: map[string]string{}}
+	vs = append(vs, c17.Post(s, target)...)
 	// (4) only-invalidates: re-present every credential the ledger holds as spent / dead
 	c1, c5, c12 := c01mon{c.Stats}, c05mon{c.Stats}, &c12mon{stats: c.Stats, lastTOTP: map[string]string{}}
 	probe := func(a *sim.Action) {
@@ -193,6 +196,7 @@ func c18Run(c *RunCtx, script c18script, err500, jsonMode bool, unit, k int, fau
 		vs = append(vs, c5.Check(s, st)...)
 		vs = append(vs, c12.Check(s, st)...)
 		s.Learn(st)
+		vs = append(vs, c17.Post(s, st)...)
 	}
 	for i, ac := range s.Accts {
 		for _, o := range ac.OTPs {
@@ -362,6 +366,12 @@ func c18Unit(c *RunCtx, unit int) {
 			}
 			// (4) nothing spent or rejected became acceptable
 			for _, v := range pvs {
+				if v.Prop == "C17" {
+					v.Sig = "C18|secret-left-in-recoverable-form-after-fault|" + script.Name + "|" + call.Op + "|" + strings.TrimPrefix(v.Sig, "C17|")
+					v.Prop = "C18"
+					report(v)
+					continue
+				}
 				v.Sig = "C18|spent-credential-accepted-after-fault|" + script.Name + "|" + call.Op + "|" + strings.TrimPrefix(v.Sig, v.Prop+"|")
 				v.Prop = "C18"
 				report(v)
